@@ -14,6 +14,7 @@ tokio::sync::Notify is a contract state machine here (documented behaviour):
   * `notify_one()` wakes the first registered task, or stores one permit if none is registered.
 The contract is cross-checked against the real tokio Notify by Kani harness K5.
 """
+import os
 import z3
 from values import *
 from interp import Interp, bool_s, mk_int, wrap_int
@@ -60,6 +61,13 @@ class Activity:
         self.ops = 0
 
 
+def touch(path, *what):
+    """footprint of the step being executed (used by the sleep-set reduction in run_activities)"""
+    fp = getattr(path, 'fp', None)
+    if fp is not None:
+        fp.add(what)
+
+
 def sched_point(ip, what):
     """yield to the scheduler before a shared operation (no-op outside Tier 4)"""
     if getattr(ip, 'activity', None) is not None:
@@ -83,6 +91,7 @@ def install(ctx):
         a = read_loc(args[0].loc)
         yield from sched_point(ip, pc['method'] + ' ' + a.name)
         old = a.cell.v
+        touch(ip.path, 'atomic-write', a.name)
         d = args[1]
         new = old.t + d.t if pc['method'] == 'fetch_add' else old.t - d.t
         a.cell.v = S(wrap_int(new, old.ty), old.ty)       # atomics wrap around on overflow
@@ -105,7 +114,9 @@ def install(ctx):
         if not isinstance(n, NotifyT4):
             return prev_nw(ip, pc, args, dt)
         yield from sched_point(ip, pc['method'] + ' ' + n.name)
+        touch(ip.path, 'notify', n.name)
         if pc['method'] == 'notify_waiters':
+            touch(ip.path, 'gen-write', n.name)
             n.gen += 1
             for act in n.waiters:
                 act.woken = True
@@ -125,6 +136,51 @@ def install(ctx):
             ip.path.effect('notify_one', n.name)
         return UNIT
 
+    # ---- locks: acquisition is a scheduling point; a conflicting holder blocks the activity (A4: mutual exclusion)
+    from models_sync import LockM, GuardM
+    prev_lock = M.table.get('RwLock::write')
+
+    class GuardT4(GuardM):
+        def __init__(self, lock, mode, act):
+            GuardM.__init__(self, lock, mode)
+            self.act = act
+
+        def on_drop(self, ip):
+            lk = self.lock
+            lk.holders = [h for h in getattr(lk, 'holders', []) if h[0] is not self.act or h[1] != self.mode]
+            touch(ip.path, 'unlock', lk.name)
+            ip.path.effect('unlock', lk.name, self.mode)
+            for b in getattr(lk, 'blocked', []):
+                if b.state == 'blocked':
+                    b.state = 'ready'
+            lk.blocked = []
+
+    @M.reg('RwLock::read', 'RwLock::write', 'Mutex::lock', 'RwLock::upgradable_read')
+    def lock_acquire(ip, pc, args, dt):
+        act = getattr(ip, 'activity', None)
+        if act is None:
+            r = prev_lock(ip, pc, args, dt)
+            return r
+        lk = read_loc(args[0].loc)
+        if isinstance(lk, Ref):
+            lk = read_loc(lk.loc)
+        if not isinstance(lk, LockM):
+            raise Unsupported('lock on %r' % (lk,))
+        mode = {'read': 'read', 'write': 'write', 'lock': 'write', 'upgradable_read': 'read'}[pc['method']]
+        yield from sched_point(ip, 'lock %s %s' % (lk.name, mode))
+        while True:
+            holders = getattr(lk, 'holders', [])
+            if any(h[0] is act for h in holders) and (mode == 'write' or any(h[0] is act and h[1] == 'write' for h in holders)):
+                raise PanicPath('deadlock', 'lock %s acquired while already held by the same task' % lk.name)
+            if not any(h[0] is not act and (mode == 'write' or h[1] == 'write') for h in holders):
+                break
+            lk.blocked = getattr(lk, 'blocked', []) + [act]
+            yield ('block', lk.name)
+        lk.holders = getattr(lk, 'holders', []) + [(act, mode)]
+        touch(ip.path, 'lock', lk.name)
+        ip.path.effect('lock', lk.name, mode)
+        return GuardT4(lk, mode, act)
+
     prev_poll = M.table.get('<Future>::poll')
 
     @M.reg('<Future>::poll', 'Future::poll')
@@ -136,6 +192,7 @@ def install(ctx):
             yield from sched_point(ip, 'Notified::poll ' + v.notify.name)
             n = v.notify
             act = ip.activity
+            touch(ip.path, 'npoll', n.name)
             if v.done:
                 raise PanicPath('panic', 'Notified polled after completion')
             if n.gen > v.gen or getattr(act, 'notified_one', False):
@@ -155,22 +212,65 @@ def install(ctx):
         return r
 
 
+def prime(acts):
+    """run each activity's local prefix up to its first shared operation"""
+    for a in acts:
+        try:
+            ev = next(a.gen)
+            a.pending_op = ev[1] if ev and ev[0] == 'sched' else None
+        except StopIteration as e:
+            a.state = 'done'
+            a.result = e.value
+
+
+def _independent(label, fp):
+    """may the (not yet executed) shared operation `label` of a sleeping activity be swapped with the step whose
+    footprint is fp?  Only operations whose footprint is fixed by the contract models (not by the code under test)
+    are ever considered; everything else is dependent on everything."""
+    if not label:
+        return False
+    kind, _, name = label.partition(' ')
+    if kind == 'notified()':                      # reads the generation of the Notify
+        return ('gen-write', name) not in fp
+    if kind == 'Notified::poll':                  # reads generation/permit, registers the task
+        return not any(x[1:] == (name,) and x[0] in ('notify', 'gen-write', 'npoll') for x in fp)
+    if kind == 'Deleted::poll':                   # reads the one-shot, registers the task
+        return ('oneshot-send',) not in fp
+    if kind == 'load':                            # atomic load
+        return ('atomic-write', name) not in fp
+    return False
+
+
+POR = os.environ.get('VERIF_NO_POR', '') == ''
+
+
 def run_activities(path, acts, max_steps=400):
     """advance the activities in an order chosen by the path's decisions until none is runnable.
-    Each step = one shared operation plus the local computation up to the next one."""
+    Each step = one shared operation plus the local computation up to the next one.
+    Sleep sets (Godefroid) prune interleavings that differ from an explored one only by the order of two
+    adjacent independent steps; every reachable final state stays reachable."""
     steps = 0
+    sleep = []
     while True:
         runnable = [a for a in acts if a.state == 'ready']
         if not runnable:
             return steps
-        i = path.choose(len(runnable), 'schedule')
-        a = runnable[i]
+        cand = [a for a in runnable if a not in sleep]
+        if not cand:
+            path.effect('por', 'pruned')
+            raise Infeasible()
+        i = path.choose(len(cand), 'schedule')
+        a = cand[i]
         steps += 1
         if steps > max_steps:
             raise OutOfBound('schedule longer than %d steps' % max_steps)
+        path.fp = set()
         try:
             ev = next(a.gen)
             a.ops += 1
+            a.pending_op = ev[1] if ev and ev[0] == 'sched' else None
+            if ev and ev[0] == 'block':
+                a.state = 'blocked'
             if ev and ev[0] == 'park':
                 # Pending returned: parked unless a wake-up already arrived in the meantime
                 if a.woken:
@@ -181,6 +281,10 @@ def run_activities(path, acts, max_steps=400):
         except StopIteration as e:
             a.state = 'done'
             a.result = e.value
+        fp = path.fp
+        path.fp = None
+        if POR:
+            sleep = [b for b in sleep + cand[:i] if b is not a and b.state == 'ready' and _independent(getattr(b, 'pending_op', None), fp)]
 
 
 def future_activity(act, loc, max_polls=6):
